@@ -8,7 +8,7 @@ Open Scope Z_scope.
 
 (* tpl_eq_xgo_on_shared.  [shared ul ud cm src] (Model/ScanRel.v) runs the XGo dialect and checks
    before every step that it takes no branch tpl/scanner lacks or does differently: no keyword,
-   no c"/py" string, no '~' '@' '**', no blank directly after a number's unit, and on every comment
+   no c"/py" string, no '~' '@' '**', and on every comment
    the two scanComment variants return the same state and literal (sharp_agree / comment_agree).
    Then the two dialects return the same result: the same tokens (kind, offset, literal, extent,
    inserted semicolons) and the same errors. *)
@@ -27,11 +27,13 @@ Theorem C32_spellings_agree : forall t, code Tpl t <> -1 -> code XGo t <> -1 -> 
 Proof. exact spell_tpl_xgo. Qed.
 
 (* the shared lexemes on which the two scanners differ, with both streams *)
-Theorem C32_tpl_xgo_diverge_unit : forall ul ud,
-  astream ul ud XGo true w_unit_space
+(* formerly a divergence (tpl/scanner placed the UNIT token after the blanks that follow it), now
+   repaired in tpl/scanner: agreement, kept as a regression statement *)
+Theorem C32_tpl_xgo_agree_unit : forall ul ud,
+  astream ul ud Tpl true w_unit_space
     = Some [(T_INT, 0, [49%N]); (T_UNIT, 1, [109%N]); (T_IDENT, 3, [120%N]); (T_SEMICOLON, 4, [10%N]); (T_EOF, 4, [])]
-  /\ astream ul ud Tpl true w_unit_space
-    = Some [(T_INT, 0, [49%N]); (T_UNIT, 2, [109%N]); (T_IDENT, 3, [120%N]); (T_SEMICOLON, 4, [10%N]); (T_EOF, 4, [])].
+  /\ astream ul ud Tpl true w_unit_space = astream ul ud XGo true w_unit_space
+  /\ astream ul ud Tpl false w_unit_space = astream ul ud XGo false w_unit_space.
 Proof. exact unit_space_streams. Qed.
 Theorem C32_tpl_xgo_diverge_sharp_cr : forall ul ud,
   astream ul ud XGo true w_sharp_cr = Some [(T_COMMENT, 0, [35; 97]%N); (T_EOF, 4, [])]
@@ -54,7 +56,7 @@ Definition ex_shared : str :=
 Example C32_shared_example : forall ul ud, shared ul ud true ex_shared = true /\ shared ul ud false ex_shared = true.
 Proof. intros ul ud. split; vm_compute; reflexivity. Qed.
 Example C32_not_shared_examples : forall ul ud,
-  shared ul ud true w_unit_space = false /\ shared ul ud true w_sharp_cr = false
+  shared ul ud true w_unit_space = true /\ shared ul ud true w_sharp_cr = false
   /\ shared ul ud true w_sharp_star = false /\ shared ul ud true w_block_cr = false.
 Proof. intros ul ud. repeat split; vm_compute; reflexivity. Qed.
 
@@ -89,7 +91,7 @@ Print Assumptions C32_source_constants.
 Print Assumptions C32_tpl_eq_xgo_on_shared.
 Print Assumptions C32_step_tpl_eq_xgo.
 Print Assumptions C32_spellings_agree.
-Print Assumptions C32_tpl_xgo_diverge_unit.
+Print Assumptions C32_tpl_xgo_agree_unit.
 Print Assumptions C32_tpl_xgo_diverge_sharp_cr.
 Print Assumptions C32_tpl_xgo_diverge_sharp_star.
 Print Assumptions C32_tpl_xgo_diverge_block_cr.
